@@ -110,12 +110,18 @@ class Cell(NullCell):
         # CellRepr(c) = CellRepr∞ (c) = d1d2 + data + depth(r_i) for all i + hash(r_i) for all i
         descs = self._descriptors
         data = self._data_bytes
+        if len(self._hashes) > 1:
+            # a non-pruned cell of non-zero level chains its highest hash over the previous one
+            data = self._hashes[-2]
         result = descs + data
         depths = b''
         hashes = b''
+        level = self.level_mask.get_level()
+        if self.type_ in (CellTypes.merkle_proof, CellTypes.merkle_update):
+            level += 1
         for ref in self.refs:
-            depths += ref._max_depth.to_bytes(2, 'big')
-            hashes += ref.hash
+            depths += ref.get_depth(level).to_bytes(2, 'big')
+            hashes += ref.get_hash(level)
         return result + depths + hashes
 
     @property
